@@ -1012,7 +1012,14 @@ func decodeCase(b []byte) {
 	var ok bool
 	var acc []string
 	st := guarded(func() {
-		p, err := jsonpatch.DecodePatch(b)
+		// the caller's buffer is reused after the call (a read loop, a pooled buffer): the Patch must
+		// hold its own data
+		own := append([]byte{}, b...)
+		p, err := jsonpatch.DecodePatch(own)
+		const other = "[{\"op\":\"copy\",\"from\":\"/zz\",\"path\":\"/yy\"}]  "
+		for i := range own {
+			own[i] = other[i%len(other)]
+		}
 		ok = err == nil
 		if err != nil && p != nil {
 			acc = append(acc, "nonnil-on-error")
